@@ -59,6 +59,20 @@ class SDecoded(Sym):
         self.raw = raw
 
 
+class JDump(Sym):
+    """json.dumps(v): the JSON text of the value v (assumed law: json.loads(json.dumps(v)) == v
+    for JSON-able v with str keys; the text contains no line break since indent=None)."""
+    __slots__ = ('v',)
+
+    def __init__(self, v):
+        self.v = v
+
+
+def file_write(it, f, text):
+    f.fields['out'].items.append(text)
+    return None
+
+
 def bytes_add(it, a, b):
     """a + b for (bytes | SBytes) + SByte1."""
     if isinstance(a, (bytes, bytearray)):
@@ -112,6 +126,7 @@ def sock_sendall(it, sock, payload):
 
 
 METHODS = {
+    ('file', 'write'): file_write,
     ('socket', 'recv'): sock_recv,
     ('socket', 'sendall'): sock_sendall,
     ('socket', 'close'): lambda it, s: s.fields.__setitem__('closed', True),
@@ -129,6 +144,23 @@ def call_method(it, obj, name, args, kwargs):
 
 class NonTermination(BaseException):
     """Raised by a native fake when the code under replay evidently does not terminate."""
+
+
+class FakeFile:
+    """Text file opened for writing: remembers the chunks written since it was created."""
+
+    def __init__(self, out=None):
+        self.out = list(out or [])
+
+    def write(self, text):
+        self.out.append(text)
+        return len(text)
+
+    def __eq__(self, other):
+        return isinstance(other, FakeFile) and self.out == other.out
+
+    def __repr__(self):
+        return f'FakeFile({self.out!r})'
 
 
 class FakeSocket:
